@@ -138,6 +138,12 @@ def run(lines, out, args):
             elif c[0] == "J":
                 # ... and one INHERITED from a base class of the candidate class
                 parent_body[name] = staticmethod(mkfunc(name, psig(c[1:]), False))
+            elif c[0] == "K":
+                # a @classmethod: reached through the instance it is a method bound to the CLASS, not to the candidate
+                body[name] = classmethod(mkfunc(name, psig(c[1:]), True))
+            elif c[0] == "L":
+                # delegation: the bound method of ANOTHER object stored on the instance (`self.make = backend.make`)
+                inst_attrs[name] = getattr(type("Backend", (), {name: mkfunc(name, psig(c[1:]), True)})(), name)
             elif c[0] == "F":
                 inst_attrs[name] = mkfunc(name, psig(c[1:]), False)
             elif c == "B":
@@ -189,7 +195,7 @@ def run(lines, out, args):
             if d == "A":
                 continue
             attr = getattr(probe, name)
-            if c[0] in "FGHDTJ":
+            if c[0] in "FGHDTJKL":
                 target = attr if not cls_mode else getattr(C(), name)
                 s = inspect.signature(target)
                 impl_pos = len([p for p in s.parameters.values() if p.kind in (p.POSITIONAL_ONLY, p.POSITIONAL_OR_KEYWORD)])
@@ -212,7 +218,7 @@ def run(lines, out, args):
 
     for line in lines:
         f = line.split("|")
-        if f[0] not in ("verify", "verify2"):
+        if f[0] not in ("verify", "verify2", "verifyd"):
             out.write("bad\n")
             continue
         cls_mode, tentative, declared = f[1] == "c", f[2] == "1", f[3] in ("1", "2")
@@ -237,6 +243,23 @@ def run(lines, out, args):
                 order_ok = order == ["m" + n for n, d, c in elems]
                 g2, w2 = verify_and_judge(I, elems, C, ob, cls_mode, tentative, declared)
                 out.write("%s ## %s || %s ## %s%s\n" % (g1, g2, w1, w2, "" if order_ok else " ORDER-MISMATCH %s" % order))
+                continue
+            if f[0] == "verifyd":
+                # a diamond IA <- IB, IA <- IC, ID(IB, IC): the top declares the first members with OTHER descriptions, the
+                # second branch re-declares them (and declares the rest); ID's resolution order is ID IB IC IA, so what a
+                # provider of ID must honour is IC's declaration
+                alts = f[6].split(";") if f[6] else []
+                serial[0] += 1
+                IA = InterfaceClass("IA%d" % serial[0], (Interface,), {"m" + n: desc(n, a) for (n, d, c), a in zip(elems, alts)}, __module__="zi.gen")
+                IB = InterfaceClass("IB%d" % serial[0], (IA,), {}, __module__="zi.gen")
+                IC = InterfaceClass("IC%d" % serial[0], (IA,), {"m" + n: desc(n, d) for n, d, c in elems}, __module__="zi.gen")
+                I = InterfaceClass("ID%d" % serial[0], (IB, IC) if f[5] == "0" else (IB, IA, IC)[::2], {}, __module__="zi.gen")
+                order = [n for n, _ in I.namesAndDescriptions(all=True)]
+                order_ok = order == ["m" + n for n, d, c in elems]
+                same = all(I["m" + n] is IC["m" + n] and I.get("m" + n) is IC.get("m" + n) and I.getDescriptionFor("m" + n) is IC["m" + n] for n, d, c in elems)
+                C, ob = candidate(elems, cls_mode, I if declared else None, on_instance)
+                got, want = verify_and_judge(I, elems, C, ob, cls_mode, tentative, declared)
+                out.write("%s || %s%s%s\n" % (got, want, "" if order_ok else " ORDER-MISMATCH %s" % order, "" if same else " ORDER-MISMATCH the interface does not answer with its nearest declaration"))
                 continue
             base_attrs = {"m" + n: desc(n, d) for n, d, c in elems[:nbase]}
             own_attrs = {"m" + n: desc(n, d) for n, d, c in elems[nbase:]}
